@@ -135,7 +135,7 @@ PLAN = {
             ('chain3 d5 push', 'edges',
              dict(CHAIN, InitRBases='<-RB_Chain3', MaxDepth=5,
                   Muts='{"sub","unsub","regbases"}', Queries='{"subs"}',
-                  MaxLive=3),
+                  Vals='{1,2}', ValMode='"any"', MaxLive=3),
              dict(sb='SB_One', rb='RB_Chain3')),
         ],
         'thorough': [
